@@ -207,6 +207,24 @@ def w_sampler(case):
                      'are chosen WITHOUT replacement: they are not independent '
                      'draws (%s)' % lab, 'expected': 'replace=True',
                      'observed': norep, 'behaviour': 'no_replacement'})
+    if case['family'] == 'pop' and sm.spec['kind'] == 'Cov' and \
+            sm.spec['inner']['kind'] in ('G', 'LN') and \
+            sm.spec['inner'].get('centered', True):
+        # with every base variate at zero each individual sits at the location of
+        # ITS sub-population (reference: vartheta_0 + sum_c beta_c chi_c)
+        with Seam(Script(base=lambda st_, ix_, kind_, n_=None:
+                         0.0 if kind_ == 'z' else (0.5 if kind_ == 'u' else 0))):
+            Sz = sm.sample()
+        ntr += 1
+        vt = np.real(rp.vartheta(sm.spec, sm.top, sm.cov, sm.n_samples))
+        loc = vt[:, 0, :]
+        want_z = loc if sm.spec['inner']['kind'] == 'G' else np.exp(loc)
+        if np.shape(Sz) != want_z.shape or not tol.allclose(Sz, want_z):
+            viol.append({'sub': 'cov_location', 'message': 'with all base variates '
+                         'at zero the individuals are not at the locations of the '
+                         'sub-populations their covariates select (%s)' % lab,
+                         'expected': want_z, 'observed': Sz,
+                         'behaviour': 'cov_location'})
     if case['family'] == 'pop' and case.get('n_ids') and \
             sm.spec['kind'] == 'H':
         wrong_n = [c for c in seam0.choice_calls if c['n'] != case['n_ids']]
@@ -657,3 +675,4 @@ META['level_text'] += (
     ' Also: far-tail truncated Gaussians, batches with one cell outside the support'
     ' / off a point mass, heterogeneous samples as rows of the parameter table unde'
     'r successive categorical answers.')
+META['level_text'] += (' Wave 9: covariate models around centred models: with all base variates at zero every individual sits at the reference location of its sub-population.')
